@@ -39,8 +39,8 @@ def _validate_chunk(args):
     hpath = os.path.join(wd, "hist_%s.ndjson" % tag)
     results, bad = [], []
     while hist:
-        if len(results) > 400:
-            raise lib.ToolError("more than 400 rejected scripts in one chunk; giving up")
+        if len(results) > 2000:
+            raise lib.ToolError("more than 2000 rejected scripts in one chunk; giving up")
         lib.write_ndjson(hpath, hist)
         res = lib.tlc("Trace_RegAlloc", env={"HIST": hpath}, workers=1, timeout=1200, name="trace_regalloc_" + tag)
         results.append(res)
@@ -73,7 +73,7 @@ def _validate_chunk(args):
     return results, bad
 
 
-def validate_history(chk, wd, hist, index, describe, chunks=8):
+def validate_history(chk, wd, hist, index, describe, chunks=12):
     """Trace_RegAlloc on a concatenation of per-script histories.  A rejected history stops at the first
     unexplained event: that script is reported, then the scripts after it are validated (the ones before it were
     accepted), until the whole history has been judged.  The history is cut at script boundaries into chunks that
